@@ -258,7 +258,7 @@ def rule_visitor(E, R):
                 R.cannot(rule, fn, "anchor not found")
                 continue
             S = sem.Sem(E, h, inline=False)
-            t = tail(h["body"])
+            t = fn_result(h)
             tgt = walkname if target == "walk" else target
             ok = t.get("k") == "MethodCall" and t["m"] == tgt and not [x for x in S.sites() if x.node is t and x.pc]
             if ok:
